@@ -23,6 +23,8 @@ RULES: Dict[str, str] = {
     'R-SORT-TOTAL': 'sa.rules.sorttotal:run',
     'R-MANGLE-PROTOCOL': 'sa.rules.imports:run',
     'R-REPEAT-COUNT': 'sa.rules.repeat:run',
+    'R-EARLEY-PROTOCOL': 'sa.rules.earley:run',
+    'R-RECONS-PROTOCOL': 'sa.rules.recons:run',
     'R-LALR-DRIVER': 'sa.rules.lalr:run_driver',
     'R-LALR-TABLE': 'sa.rules.lalr:run_table',
     'R-CONFIG-FORWARD': 'sa.rules.structure:run_config_forward',
@@ -119,7 +121,7 @@ PROPERTIES.update({
               'character is chosen per representation.',
               'text[start:end] == token (regex semantics); nesting of spans for all grammars.',
               'argument-binding family check, CFG must-precede, linear-normal-form dataflow, predicate exhaustiveness table'),
-    'C07': _p(['R-LEX-PRECEDENCE', 'R-SERIAL-NORM', 'R-SORT-TOTAL', 'R-OVERWRITTEN-STORE', 'R-PARAM-FORWARD'],
+    'C07': _p(['R-LEX-PRECEDENCE', 'R-SERIAL-NORM', 'R-SORT-TOTAL', 'R-OVERWRITTEN-STORE', 'R-PARAM-FORWARD', 'R-PREFIX-PROTOCOL'],
               'the sort key is the documented precedence and the sorted list reaches the regex alternation unchanged (slice bounds of the '
               'chunking agree), for the basic lexer and every per-state lexer; the keyword exception is guarded by equal priority, a full '
               'match and a flag-subset test whose operands are sets on every construction path.',
@@ -219,7 +221,7 @@ PROPERTIES.update({
 })
 
 PROPERTIES.update({
-    'C02': _p(['R-LALR-DRIVER', 'R-LALR-TABLE', 'R-TERM-NAME-PROTOCOL'],
+    'C02': _p(['R-LALR-DRIVER', 'R-LALR-TABLE', 'R-TERM-NAME-PROTOCOL', 'R-EARLEY-PROTOCOL'],
               'clause-level necessary conditions of the LALR(1) construction and of its driver: the shift/reduce loop keeps the state stack and '
               'the value stack in lockstep (one push each per round, equal cuts on every path), reduces by len(rule.expansion) with the arguments '
               'read before and the goto looked up after the cut (row of the new top state, column of the rule\'s origin), consumes the token '
@@ -237,12 +239,44 @@ PROPERTIES.update({
               'builders with the DeRemer-Pennello definitions over the canonical form'),
 })
 
+PROPERTIES.update({
+    'C01': _p(['R-EARLEY-PROTOCOL', 'R-SCAN-BUFFER', 'R-NODECACHE', 'R-GUARD-SAME-SET', 'R-FLAG-DEFAULT', 'R-EXC-DISCIPLINE', 'R-LEX-PRECEDENCE', 'R-PREFIX-PROTOCOL'],
+              'the item protocol of the Earley recogniser, clause by clause (each a necessary condition of completeness or soundness): every item '
+              'the predictor, both completer arms and the scanners produce is routed by `expect in TERMINALS` to a scan buffer, else to the Earley '
+              'set being built -- inside predict_and_complete that set is the column being processed, the item is added only if not yet in that '
+              'same set and goes on the agenda in the same block; the agenda starts from column i and runs empty; the completer advances every '
+              'item of column item.start that expects the completed symbol with family (originator.node, item.node); completions with '
+              'start == i are held per origin (fresh per call) and the predictor advances over held symbols; Item(rule, 0, i) for every predicted '
+              'rule; every scan-buffer item is offered the input, a match advances it, the token scanner\'s node ends at i + 1, one fresh set is '
+              'appended per step; predict_and_complete(i) before scan(i), i += 1, one final predict_and_complete; Item(rule, 0, 0) for the start '
+              'rules; success iff the last column holds a complete start item from 0 with a node; prediction closure over first non-terminals; '
+              'NULLABLE as a least fixed point; the dynamic scanner carries the whole scan buffer (and, separately, completed start items) over '
+              'ignored text; rejection exactly when nothing survives a step; complete_lex is off unless asked for.',
+              'that the recogniser accepts exactly L(G) for all grammars and inputs (functional correctness of the chart algorithm as a whole, '
+              'the Leo optimisation, regular-expression matching of terminals, the longest-match restriction of the dynamic lexer); that '
+              'construction never hangs.',
+              'routing-site extraction and sibling agreement over the producers of items, path conditions, statement-order rules over the main loop'),
+})
+
+PROPERTIES.update({
+    'C19': _p(['R-RECONS-PROTOCOL', 'R-KEEP-PRED'],
+              'the protocol the round trip rests on: the matching rules are built from a rule\'s expansion minus exactly the symbols for which '
+              'is_discarded_terminal (= is_term and filter_out) holds, and the writer puts a literal back exactly for those symbols (same '
+              'function, opposite polarity); the writer walks meta.orig_expansion in order and in every round either writes one literal or takes '
+              'exactly one child from the iterator over the node\'s children (path vectors), splices a list child and appends any other, and '
+              'checks afterwards that every child was used; make_recons_rule receives (filtered expansion, the rule\'s own expansion) and '
+              '_MakeTreeMatch marks the node match_tree = True with that original expansion, which is what the writer tests; a literal is '
+              'term_subs[name](sym) or else the value of a string pattern (regexps refused); symbols stay non-terminals in matching rules iff '
+              'their rule is inlined / expand1 / aliased and the same tests route the rule; _reconstruct yields every written item once in '
+              'order, recursing into sub-trees; reconstruct() joins in order with one blank exactly between two identifier characters.',
+              'that reconstruct(parse(text)) re-parses to an equal tree for every grammar of the supported class (value-level round trip); the '
+              'choice among several matching rules (_best_from_group); the Earley match of the children; postproc.',
+              'producer/consumer sibling agreement on one predicate, path-vector counting over the writer\'s loop, truth-table comparison of '
+              'the routing conditions'),
+})
+
 
 NOT_APPLICABLE = {
-    'C01': 'membership in L(G) for all grammars x inputs is functional correctness of a chart algorithm; no ownership, ordering, pairing or '
-           'agreement fact in the source is a necessary condition specific to it (R-EQHASH/R-NODECACHE cover Earley data structures under C04/C20).',
-    'C19': 'a value-level round trip over all trees of a grammar class; the tree-matching grammar is a second compilation whose agreement with '
-           'the first is semantic; the predicate the two share (is_discarded_terminal) is checked under C03.',
 }
 
 
